@@ -1,4 +1,4 @@
-CONSTANTS DeepCopy = FALSE  Family = "none"  MaxMut = 2  Contexts = {"L1", "L2", "L3", "B"}
+CONSTANTS DeepCopy = FALSE  Family = "none"  MaxMut = 2  ResaveEdges = TRUE  MaxOps = 2  Contexts = {"L1", "L2", "L3", "B"}
 INIT Init
 NEXT Next
 INVARIANT Separation
